@@ -31,6 +31,9 @@ CONSTANTS Inputs,       \* raw input classes used (for every step and signal)
                         \* that is not a map is shorthand for the object with that property
           ShortInputs,  \* accepted raw input classes used, in addition, for the steps in ShortSteps: "vs"
           BehSet,       \* step handler behaviours used
+          ExtraBehs,    \* further entries of the (output ID class x data class) product, enumerated for every step
+                        \* but on one run and one accepted input only (the outcome depends on neither)
+          MapExtraBehs, \* the same for the steps in MapSteps only (data class "confr")
           MapBehs,      \* behaviours used, in addition, for the steps in MapSteps (their OUTPUT scopes are map-based
                         \* too): "okr" (conforming data whose in-memory form differs from its serialized form)
           WithUnknown,  \* include unknown step / unknown signal calls
@@ -50,6 +53,7 @@ B1 == IF "ok" \in BehSet THEN "ok" ELSE B0
 ASSUME MapInputs \subseteq ValidInputs
 ASSUME MapBehs \subseteq Behs
 ASSUME ShortInputs \subseteq ValidInputs
+ASSUME BehSet \subseteq Behs /\ ExtraBehs \subseteq Behs /\ MapExtraBehs \subseteq Behs
 
 StepCalls ==
     {MkCall("step", s, r, "none", i, B0) : s \in StepIds, r \in Runs, i \in Inputs \ ValidInputs}
@@ -58,6 +62,8 @@ StepCalls ==
     \cup {MkCall("step", s, r, "none", i, b) : s \in MapSteps \cap StepIds, r \in Runs, i \in Inputs \cap ValidInputs,
                                                 b \in MapBehs \ BehSet}
     \cup {MkCall("step", s, r, "none", i, B1) : s \in ShortSteps \cap StepIds, r \in Runs, i \in ShortInputs \ Inputs}
+    \cup {MkCall("step", s, R0, "none", V0, b) : s \in StepIds, b \in ExtraBehs \ BehSet}
+    \cup {MkCall("step", s, R0, "none", V0, b) : s \in MapSteps \cap StepIds, b \in MapExtraBehs \ (BehSet \cup ExtraBehs \cup MapBehs)}
     \cup (IF WithUnknown THEN {MkCall("step", NoStep, R0, "none", V0, B0)} ELSE {})
 
 SignalCalls ==
